@@ -98,6 +98,9 @@ func runFaultEnum(c *Ctx, stores []string) {
 					n++
 					o := cfgVariants[(si+bi)%2]
 					o.Store = store
+					if pl.cmd != "" { // with session timeouts the store also issues EXPIREAT / HGET time_added
+						o.Abs, o.Idle = 3600, 600
+					}
 					w := newWorld(c.Seed*131+int64(n), o)
 					s := newSim(w, newRand(c.Seed, int64(7000+n)))
 					path := sc.Prepare(s)
@@ -117,6 +120,11 @@ func runFaultEnum(c *Ctx, stores []string) {
 					c.Hist("fault_enum_scenario", sc.Name)
 					key, _ := s.projKey()
 					c.Distinct("FE|" + key)
+					if c.Prop == "C01" && len(w.OKDespiteCmdFault) > 0 {
+						c.Sum.GoFindings = append(c.Sum.GoFindings, Finding{Signature: "C01/ok-despite-failed-redis-command",
+							What:   "a check during which a command of the session store's Redis connection failed was answered OK: " + w.OKDespiteCmdFault[0],
+							Replay: s.descr(map[string]any{"ok_despite_command_fault": w.OKDespiteCmdFault, "scenario": sc.Name, "redis_command_fault": pl.cmd})})
+					}
 					cases = append(cases, s.galHist())
 					d := s.descr(map[string]any{"fault_enum": fmt.Sprintf("%s / provider=%s / faults=%v jwks_fail=%v redis_command_fault=%q", sc.Name, beh.label(), pl.f, pl.jf, pl.cmd)})
 					descr = append(descr, d)
